@@ -220,6 +220,7 @@ func runC17(r *Report) {
 	ruleWalReclaim(r)
 	ruleUnbuffered(r, "handoff-unbuffered")
 	ruleHandoff(r)
+	ruleOpenFlag(r, "simpledb")
 	// the string flavour's own validation returns the same sentinel
 	if fn := p.Func("simpledb.DB.Put"); fn != nil {
 		key := rd + "/simpledb.DB.Put/same-sentinel"
